@@ -69,6 +69,7 @@ func runC01(p *Prog, r *Report) {
 	cloneBeforeExtendRule(p, r, "C01.R15", p.Chains())
 	c08R2(p, r, "C01.R16")
 	structIdentityRule(p, r, "C01.R17")
+	getPackagesRule(p, r, "C01.R18")
 }
 
 // reservedNames reads the initial lookup set from the map literal in namer.New.
